@@ -12,7 +12,7 @@ import vhelp
 NAME = "js_result_buf"
 ENGINE = "verus"
 PROPERTIES = {"C10": "JS reads the is_ok flag of a returned Result/Option at the offset where repr(C) DiplomatResult<T, E> has it, for every pair of payload layouts",
-              "C08": "the JS out-buffer for a Result/Option return has the repr(C) alignment of the struct the wasm callee writes",
+              "C08": "the JS receive buffer has the size and alignment of what the wasm callee writes: the struct's own layout for an infallible struct / slice return, the repr(C) alignment of the result struct for a Result/Option return",
               "C15": "the unreachable! arms of the statement range are dead for the return shapes that reach this arm; size arithmetic does not overflow"}
 F = "tool/src/js/converter.rs"
 
@@ -110,11 +110,28 @@ def build(tier):
     vf.add("\n    (size, align)\n}\n}\n", origin=org)
     vf.functions.append({"path": frag["path"], "file": F, "line": src.line_of(a), "end_line": src.line_of(b), "engine": "verus", "mode": "verus (statement range)", "bound": "none"})
     vf.expected.append("js_result_buffer")
+    # ---- the infallible struct / slice return: receive buffer == the type's own layout
+    m3 = re.search(r"Type::Struct\(_\) \| Type::Slice\(_\) => \{\s*(let layout = [^;]*;\s*let size = [^;]*;\s*let align = [^;]*;)", body)
+    if not m3:
+        raise Undecided("anchor-lost", "gen_c_to_js_for_return_type: `Type::Struct(_) | Type::Slice(_) => { let layout ..; let size ..; let align ..;` not found")
+    a = it["start"] + m3.start(1)
+    b = it["start"] + m3.end(1)
+    frag = {"path": it["path"] + "#Infallible(OutType) arm, Struct|Slice: stmts(let layout ..= let align)", "kind": "stmt", "start": a, "after_attrs": a, "end": b, "loops": []}
+    org = {"file": F, "item": frag["path"], "line": src.line_of(a), "end_line": src.line_of(b)}
+    p = Piece(src, frag)
+    p.sub("E12", r"crate::js::layout::", "crate_js_layout::", count=None, why="module path re-rooted")
+    vf.add("impl<'a> TyGenContext<'a> {\n// E15: the three statements that size the receive buffer of an infallible struct / slice return\n"
+           "fn js_struct_receive_buffer(&self, o: &OutType) -> (r: (usize, usize))\n"
+           f"    ensures {CANARY} r.0 == ty_size(*o), r.1 == ty_align(*o),\n{{\n        ", origin=org)
+    vf.add(p.render(), origin=org, edits=p.log)
+    vf.add("\n    (size, align)\n}\n}\n", origin=org)
+    vf.functions.append({"path": frag["path"], "file": F, "line": src.line_of(a), "end_line": src.line_of(b), "engine": "verus", "mode": "verus (statement range)", "bound": "none"})
+    vf.expected.append("js_struct_receive_buffer")
     vf.add(vhelp.FOOTER)
     return vf
 
 
-CANARY_FUNCTIONS = ["js_result_buffer"]
+CANARY_FUNCTIONS = ["js_result_buffer", "js_struct_receive_buffer"]
 ASSUMPTIONS = [
     "type_size_alignment is abstract with the contract proved in units layout_arith / layout_prims (power-of-two alignment, size a multiple of it); unit_size_alignment() is Layout::new::<u32>() on the wasm32 target (4, 4)",
     "the runtime reads the flag at `size - 1` (runtime.mjs DiplomatReceiveBuf.resultFlag: read) and allocates with the given alignment",
